@@ -25,8 +25,13 @@ type deltaScn struct {
 	S2     int32  `json:"s2"`
 	Scale  int    `json:"scale"` // >1: each symbol is inflated to Scale pseudo-random bytes
 	Gen    *dgen  `json:"gen,omitempty"`
-	Bound  *int64 `json:"bound,omitempty"` // literal-byte bound predicted by the spec (C16)
 	Class  string `json:"class,omitempty"`
+	// C16 (DeltaEdit scenarios): what the literal bound is computed from, in symbols
+	Kind  string `json:"kind,omitempty"` // edits | perm
+	Ins   int    `json:"ins"`
+	Slack int    `json:"slack"`
+	Edits int    `json:"edits"`
+	Bounded bool `json:"bounded"` // for gen cases: apply the bound
 }
 
 // dgen describes concrete-domain data (too large for TLC to enumerate).
@@ -79,8 +84,9 @@ type deltaObs struct {
 	SumOK   bool       `json:"sumok"`
 	Err     string     `json:"err"`
 	Lit     int64      `json:"lit"`
-	Bound   int64      `json:"bound"` // -1: none
-	Inserted int64     `json:"inserted"`
+	Bounded bool       `json:"bounded"`  // C16: the literal bound applies to this case
+	Inserted int64     `json:"inserted"` // bytes inserted by the edits
+	Slack   int64      `json:"slack"`    // bytes that cannot match for structural reasons
 	NEdits  int        `json:"nedits"`
 	Scn     json.RawMessage `json:"scn"`
 }
@@ -257,9 +263,52 @@ func deltaHandler(w *workerCtx, line []byte) (any, error) {
 		return nil, err
 	}
 	var basis, target []byte
-	obs := &deltaObs{ID: s.ID, Class: s.Class, Bound: -1, Scn: json.RawMessage(line)}
+	obs := &deltaObs{ID: s.ID, Class: s.Class, Scn: json.RawMessage(line)}
 	if s.Gen != nil {
 		basis, target, obs.Inserted, obs.NEdits = genData(s.Gen)
+		obs.Bounded = s.Bounded
+	} else if s.Kind != "" {
+		// DeltaEdit scenario: symbols 1..n are the basis, larger ones are fresh
+		scale := max(s.Scale, 1)
+		n := len(s.Basis)
+		width := func(v int) int {
+			if v <= n || scale == 1 {
+				return scale
+			}
+			return 1 + int((uint64(v)*2654435761+uint64(s.ID)*40503)%uint64(2*scale))
+		}
+		sym := func(v int) []byte {
+			if scale == 1 {
+				return []byte{byte(v)}
+			}
+			r := rand.New(rand.NewSource(int64(s.ID)*1000003 + int64(v)*7919 + 17))
+			b := make([]byte, width(v))
+			r.Read(b)
+			return b
+		}
+		for _, v := range s.Basis {
+			basis = append(basis, sym(v)...)
+		}
+		for _, v := range s.Target {
+			target = append(target, sym(v)...)
+			if v > n {
+				obs.Inserted += int64(width(v))
+			}
+		}
+		if basis == nil {
+			basis = []byte{}
+		}
+		if target == nil {
+			target = []byte{}
+		}
+		obs.Slack = int64(s.Slack * scale)
+		obs.NEdits = s.Edits
+		obs.Bounded = true
+		if scale == 1 && len(basis) <= 24 && len(target) <= 24 {
+			obs.Small = true
+			obs.Basis = intsOf(basis)
+			obs.Target = intsOf(target)
+		}
 	} else {
 		scale := s.Scale
 		if scale < 1 {
@@ -272,9 +321,6 @@ func deltaHandler(w *workerCtx, line []byte) (any, error) {
 			obs.Basis = intsOf(basis)
 			obs.Target = intsOf(target)
 		}
-	}
-	if s.Bound != nil {
-		obs.Bound = *s.Bound
 	}
 	blk := s.Blk
 	if s.Scale > 1 {
